@@ -54,6 +54,7 @@ func C20(c *Ctx) {
 	r.Rule("R20.4", "applied-index value: the index persisted by reportState is the one looked up in blockAppliedIndex under the reported state's height, and publishEntries records (batch height -> index of the entry that carried it).")
 	r.Rule("R20.5", "pool confinement: the transaction pool's unsynchronised methods (GetTransaction, ProcessTransactions, GenerateBlock, CommitTransactions, ...) are called from exactly one goroutine root per ordering node (the main event loop).")
 	r.Rule("R20.7", "the snapshot names the log position it is paired with: the payload handed to TakeSnapshot(appliedIndex, ..) carries the height minted from the entries up to that index (n.lastExec), set in getSnapshot from that field and from nothing the executor or the ledger reports - their height lags behind the minted height under load, and a follower restored from such a snapshot would re-mint heights it already has or skip blocks.")
+	r.Rule("R20.8", "state sync delivers every height: in StateSyncer.SyncCFTBlocks a range whose fetch failed is not skipped - the retry of the fetch is unbounded (no strategy.Limit), or the error after the retry ends the sync with an error instead of being logged while the loop goes on to the next range; a skipped range is a gap in the heights handed to the executor.")
 	r.Rule("R20.6", "commit notifications: every chain-state report received by an ordering node reaches mempool.CommitTransactions on every path (raft reportState and the solo loop agree).")
 	r.NotDecided = append(r.NotDecided, "Raft safety (dependency), message faults and crash points, identical content across replicas, the arithmetic of sync ranges (calcRangeHeight), whether generated batches can be nil (value-level)")
 
@@ -457,6 +458,7 @@ func C20(c *Ctx) {
 		r.Check(ok, "R20.6", "solo: every state report commits to the pool", c.P.Pos(sl.Pos()), "CommitTransactions(state) on every path of the stateC case", "the solo node forwards a chain-state report to the pool only on some paths (e.g. only for heights divisible by 10): committed transactions stay in the pool, are reported as pending and fill it up")
 	}
 	c.c20Snapshot()
+	c.c20SyncRanges()
 }
 
 func dedup(in []string) []string {
@@ -481,7 +483,6 @@ func followsInIteration(fn *ssa.Function, call ssa.Instruction, isB InstrPred) b
 	// reaching the call itself again (next iteration) without passing B
 	return !rs.Has(call)
 }
-
 
 // c20Snapshot: R20.7.
 func (c *Ctx) c20Snapshot() {
@@ -530,4 +531,57 @@ func (c *Ctx) c20Snapshot() {
 		r.Check(okH && other == "", "R20.7", "getSnapshot: payload height is the minted height", c.P.Pos(call.Pos()), "ChainMeta{Height: n.lastExec}", "the height in the raft snapshot is not the height minted up to appliedIndex ("+other+"): it is paired with appliedIndex in TakeSnapshot, so a follower installed from it resumes from the wrong height")
 	}
 	r.Floor("R20.7", "snapshot payloads", n, 1)
+}
+
+
+// c20SyncRanges: R20.8.
+func (c *Ctx) c20SyncRanges() {
+	r := c.R
+	fn := c.fn("R20.8", "pkg/order/syncer.(*StateSyncer).SyncCFTBlocks")
+	if fn == nil {
+		return
+	}
+	n := 0
+	for _, call := range core.Calls(fn) {
+		cl, ok := call.(*ssa.Call)
+		if !ok || !strings.HasSuffix(core.CalleeName(call), "retry.Retry") {
+			continue
+		}
+		n++
+		limited := false
+		for _, a := range call.Common().Args {
+			if core.Mentions(a, func(v ssa.Value) bool {
+				cc, ok := v.(*ssa.Call)
+				return ok && strings.HasSuffix(core.CalleeName(cc), "strategy.Limit")
+			}) {
+				limited = true
+			}
+		}
+		key := fmt.Sprintf("SyncCFTBlocks: fetch of a range #%d cannot be skipped", n)
+		if !limited {
+			r.OK("R20.8", key, c.P.Pos(call.Pos()), "the retry has no Limit strategy: it ends only when the range was fetched")
+			continue
+		}
+		// bounded retry: the failure edge must end the function with an error
+		okEdges := core.EdgeSet{}
+		for b, m := range core.SuccessEdges(fn, []core.GuardSite{{Call: cl, Conv: core.ConvErrNil, Idx: -1}}) {
+			for i := range m {
+				okEdges.Add(b, i)
+			}
+		}
+		rs := core.Reach([]core.Point{core.After(cl)}, nil, core.CutOf(okEdges))
+		bad := okEdges.Len() == 0
+		for _, ret := range core.Returns(fn) {
+			if rs.Has(ret) && core.MayBeSuccess(fn, ret, 0, core.ConvErrNil) {
+				bad = true
+			}
+		}
+		// reaching the next retry (the loop) on the failure edge is skipping, too
+		if rs.Has(cl) {
+			bad = true
+		}
+		r.Check(!bad, "R20.8", key, c.P.Pos(call.Pos()), "bounded retry whose failure ends the sync with an error",
+			"the fetch of a block range is retried a bounded number of times and its failure is only logged: the loop goes on with the next range and the sync reports success - the heights of the failed range are never delivered to the executor, which then waits for ever for the next height (or the node serves a chain with a gap)")
+	}
+	r.Floor("R20.8", "range fetches in SyncCFTBlocks", n, 1)
 }
